@@ -115,6 +115,39 @@ def run(ctx, rep):
             else:
                 held = 0
             rep.count("state:" + o["state"])
+    # side-by-side mode: the same streaming oracle on the implementation (the machine model is unified-view only)
+    sbs_cases = []
+    for cfg, lines in meta[: ctx.n(60, 1500)]:
+        sbs_cases.append((cfg, lines, rng.choice(["60", "81", "120", "33"])))
+    reqs, sticky = [], []
+    for cfg, lines, w in sbs_cases:
+        sticky.append(len(reqs))
+        args = [a for a in cfg.args() if not a.startswith("--width")] + ["--side-by-side", "--width=" + w]
+        reqs.append("cfg " + " ".join(M.hx(a) for a in args))
+        reqs.append("machine.run " + " ".join(M.hx(l.encode()) for l in lines))
+    resp = ctx.hook().ask(reqs, sticky=sticky) if reqs else []
+    for i, (cfg, lines, w) in enumerate(sbs_cases):
+        impl = M.ImplRun(resp[2 * i + 1])
+        case = dict(args=cfg.args() + ["--side-by-side", "--width=" + w], model_cfg=cfg.d, input="\n".join(lines), mode="side-by-side")
+        rep.case(key=("sbs", cfg.key(), tuple(lines), w), nontrivial=True)
+        rep.count("side-by-side-runs")
+        if impl.panic:
+            rep.count("sbs-panic:" + impl.msg[:40])      # crashes are C03's / C07's business; not judged here
+            continue
+        if not impl.ok:
+            continue
+        B = cfg.d["bufSize"]
+        prev = 0
+        for k, o in enumerate(impl.obs[:-1]):
+            if o["written"] < prev:
+                rep.violation("written-decreased", f"line {k}: written bytes went down (side-by-side)", case)
+            prev = o["written"]
+            if o["minus"] > B + 1 or o["plus"] > B + 1:
+                rep.violation("lag-exceeds-buffer", f"line {k}: {o['minus']}/{o['plus']} lines held, buffer size {B} (side-by-side)", case)
+            if o["state"] in ("HunkZero", "HunkMinus", "HunkPlus") and o["buffered"] != 0:
+                rep.violation("painted-rows-not-emitted", f"line {k}: output buffer not emitted after a hunk line (side-by-side)", case)
+            if o["state"] == "HunkZero" and (o["minus"] or o["plus"]):
+                rep.violation("context-line-did-not-flush", f"line {k}: line buffers not empty after an unchanged line (side-by-side)", case)
     # the real binary through a pipe, every prefix
     sample = [m for m in meta if len(m[1]) <= 60][: ctx.n(12, 200)]
 
